@@ -609,6 +609,27 @@ impl<const N: usize, const M: usize> ScenesState<N, M> {
         Ok(())
     }
 
+    /// Verification hook: visit `(fabric index, endpoint, group, scene id, transition time,
+    /// length of the extension fields)` of every scene table entry, then report how many
+    /// per-fabric `CurrentScene` slots there are.
+    #[cfg(rs_matter_verif)]
+    pub fn verif_for_each(&self, mut f: impl FnMut(u8, EndptId, u16, SceneId, u32, usize)) -> usize {
+        self.with(|inner| {
+            for e in inner.table.iter() {
+                f(
+                    e.fab_idx.get(),
+                    e.endpoint_id,
+                    e.group_id,
+                    e.scene_id,
+                    e.transition_time,
+                    e.extension_fields.len(),
+                );
+            }
+
+            inner.current_per_fabric.len()
+        })
+    }
+
     /// Reset the scene table and per-fabric `CurrentScene` bookkeeping to
     /// empty and remove the persisted blob from `store` (under [`SCENES_KEY`]).
     ///
